@@ -132,9 +132,13 @@ def check(k, seed):
                 a, b = arg[c].tolist(), out[c].tolist()
                 if not all((x == y) or (x != x and y != y) or str(x) == str(y) or float(x) == float(y) for x, y in zip(a, b)):
                     fails.append(f'{combo}: values of {c} changed')
-        with warnings.catch_warnings(record=True) as wl2:
-            warnings.simplefilter('always')
-            again = check_data_consistency(out)
+        try:
+            with warnings.catch_warnings(record=True) as wl2:
+                warnings.simplefilter('always')
+                again = check_data_consistency(out)
+        except Exception as e:
+            fails.append(f'{combo}: checking an already-checked frame raises {type(e).__name__}: {str(e)[:80]}')
+            return desc, {'defects': combo}, fails, None
         if frame_state(again) != frame_state(out):
             fails.append(f'{combo}: checking an already-checked frame changed it')
         bad = [str(w.message) for w in wl2 if ('Column' in str(w.message))]
